@@ -36,40 +36,41 @@ const (
 )
 
 type c20Case struct {
-	ID       int         `json:"id"`
-	Strat    string      `json:"strat"`
-	Kind     string      `json:"kind"` // normal | late-setcb | setcb-race | exhaustive
-	Cmp      bool        `json:"cmp"`  // compare with the model
-	Cb0      bool        `json:"cb0"`
-	Inb      [][]int     `json:"inb"` // one entry per inbound event; empty = close notification of the peer
-	NCl      int         `json:"ncl"`
-	Setter   bool        `json:"setter"`
-	MidYield bool        `json:"mid_yield"` // OnData pauses between Peek and ReadBytes and then checks that its view is still owned
-	Script   [][2]int    `json:"script"`    // per OnData invocation: bytes to consume, number of Close() calls inside it
-	Sync     []int       `json:"sync"`      // synchronous reads by the user BEFORE SetCallbacks: ReadBytes(k), k = 0: Peek
-	Needs    []int       `json:"needs"`     // per OnData invocation: it starts with a blocking ReadBytes(n) (0: none); n > offered: it parks in readMore
-	Picks    []bool      `json:"picks"`     // what a select takes when recvNotifyCh and closeNotifyCh are both ready (true: closeNotifyCh)
-	Deadlock bool        `json:"deadlock"`  // every remaining thread spins in a cooperative wg.Wait / is parked in readMore's select
-	DeadSel  bool        `json:"dead_sel"`  // ... and one of them is an OnData invocation parked in readMore's select
-	DeadWg   bool        `json:"dead_wg"`   // ... and one of them is a close() in asyncGoroutineWg.Wait
-	ParkedOK bool        `json:"parked_ok"` // the run ended with an OnData parked for bytes the peer never sent (legitimate)
-	ReadErr  []string    `json:"read_err"`  // error class of each blocking read inside OnData that failed
-	Ups      [][]int     `json:"ups"`       // user threads: each flushes these one-byte messages, one Flush per byte
-	InFl     []int       `json:"infl"`      // per OnData invocation: Flush calls made inside it after its Close() calls
-	Ures     [][]bool    `json:"ures"`      // per user thread (the Flushes made inside OnData last): did Flush return nil
-	NData    int64       `json:"ndata"`     // data elements put on the send queue
-	Steps    []vsStepRec `json:"steps"`
-	Offers   [][]int     `json:"offers"`
-	Consumed []int       `json:"consumed"`
-	Final    []int64     `json:"final"` // state, inproc, cstate, in table, OnLocalClose, OnRemoteClose, close elements sent
-	Recv     []int       `json:"recv"`
-	Pend     []int       `json:"pend"`
-	Finished bool        `json:"finished"`
-	Ms       int64       `json:"ms,omitempty"` // wall time of the case (diagnosis of slow runs)
-	FlushErr string      `json:"flush_err"`    // class of the error of a Flush after the run
-	Oracle   []string    `json:"oracle"`       // C20 oracle failures
-	Oracle10 []string    `json:"oracle10"`     // C10 oracle failures (close semantics)
-	Feat     []string    `json:"feat"`
+	ID        int         `json:"id"`
+	Strat     string      `json:"strat"`
+	Kind      string      `json:"kind"` // normal | late-setcb | setcb-race | exhaustive
+	Cmp       bool        `json:"cmp"`  // compare with the model
+	Cb0       bool        `json:"cb0"`
+	Inb       [][]int     `json:"inb"` // one entry per inbound event; empty = close notification of the peer
+	NCl       int         `json:"ncl"`
+	Setter    bool        `json:"setter"`
+	MidYield  bool        `json:"mid_yield"` // OnData pauses between Peek and ReadBytes and then checks that its view is still owned
+	Script    [][2]int    `json:"script"`    // per OnData invocation: bytes to consume, number of Close() calls inside it
+	Sync      []int       `json:"sync"`      // synchronous reads by the user BEFORE SetCallbacks: ReadBytes(k), k = 0: Peek
+	Needs     []int       `json:"needs"`     // per OnData invocation: it starts with a blocking ReadBytes(n) (0: none); n > offered: it parks in readMore
+	Picks     []bool      `json:"picks"`     // what a select takes when recvNotifyCh and closeNotifyCh are both ready (true: closeNotifyCh)
+	Deadlock  bool        `json:"deadlock"`  // every remaining thread spins in a cooperative wg.Wait / is parked in readMore's select
+	DeadSel   bool        `json:"dead_sel"`  // ... and one of them is an OnData invocation parked in readMore's select
+	DeadWg    bool        `json:"dead_wg"`   // ... and one of them is a close() in asyncGoroutineWg.Wait
+	Truncated bool        `json:"truncated"` // the driven schedule ended at the step / busy-poll bound; the remaining threads then ran to completion round robin (not recorded): not compared with the model, no step-bound finding
+	ParkedOK  bool        `json:"parked_ok"` // the run ended with an OnData parked for bytes the peer never sent (legitimate)
+	ReadErr   []string    `json:"read_err"`  // error class of each blocking read inside OnData that failed
+	Ups       [][]int     `json:"ups"`       // user threads: each flushes these one-byte messages, one Flush per byte
+	InFl      []int       `json:"infl"`      // per OnData invocation: Flush calls made inside it after its Close() calls
+	Ures      [][]bool    `json:"ures"`      // per user thread (the Flushes made inside OnData last): did Flush return nil
+	NData     int64       `json:"ndata"`     // data elements put on the send queue
+	Steps     []vsStepRec `json:"steps"`
+	Offers    [][]int     `json:"offers"`
+	Consumed  []int       `json:"consumed"`
+	Final     []int64     `json:"final"` // state, inproc, cstate, in table, OnLocalClose, OnRemoteClose, close elements sent
+	Recv      []int       `json:"recv"`
+	Pend      []int       `json:"pend"`
+	Finished  bool        `json:"finished"`
+	Ms        int64       `json:"ms,omitempty"` // wall time of the case (diagnosis of slow runs)
+	FlushErr  string      `json:"flush_err"`    // class of the error of a Flush after the run
+	Oracle    []string    `json:"oracle"`       // C20 oracle failures
+	Oracle10  []string    `json:"oracle10"`     // C10 oracle failures (close semantics)
+	Feat      []string    `json:"feat"`
 }
 
 // c20Walk is called (from the instrumented copy of stream.go, see props/C20.py) at the head of every iteration
@@ -305,7 +306,7 @@ func (e *c20Env) close() {
 // after a failed case the shared memory of the pair may be damaged (a double recycle, a chain linked into the free
 // list): the following cases get a fresh pair, so that one defect is not reported again as unrelated failures
 func (e *c20Env) renewAfter(c c20Case) {
-	if len(c.Oracle) > 0 || len(c.Oracle10) > 0 || (!c.Finished && !c.ParkedOK) {
+	if len(c.Oracle) > 0 || len(c.Oracle10) > 0 || (!c.Finished && !c.ParkedOK && !c.Truncated) {
 		e.close()
 		// the sessions' own goroutines close what is left in their tables: let them finish before the next case
 		// starts (instrumented stream.go code must not run beside the scheduler)
@@ -534,6 +535,12 @@ func c20Run(env *c20Env, c c20Case, mk func() vsChooser, maxSteps int) c20Case {
 		}
 		if !dead {
 			c20Finish(20000) // bounded: a run that does not end is a finding, not something to wait for
+			if len(vsAlive(vs.threads)) == 0 {
+				// only the driven prefix was cut (step bound of the family, or a long run of busy polls): every thread
+				// finished under the generous bound.  The recorded steps are a prefix: no comparison with the model.
+				c.Truncated = true
+				c.Cmp = false
+			}
 		}
 	}
 	vs.active = false
@@ -618,7 +625,7 @@ func c20Run(env *c20Env, c c20Case, mk func() vsChooser, maxSteps int) c20Case {
 	// been handed to it (pendingData empty, no token left), and only it is still alive
 	c.ParkedOK = c.Deadlock && c.DeadSel && !c.DeadWg && finalState == uint32(streamOpened) && len(c.Pend) == 0 &&
 		len(s.recvNotifyCh) == 0 && c.Final[8] == 0
-	if !finished && !c.ParkedOK {
+	if !finished && !c.ParkedOK && !c.Truncated {
 		if c.Deadlock && c.DeadSel && !c.DeadWg {
 			or[fmt.Sprintf("no-strand: an OnData invocation stays parked in a blocking read (readMore) although it would be resumable: %d byte(s) that arrived since sit in pendingData, token in recvNotifyCh: %d, closeNotifyCh closed: %d, state %d — nothing will ever wake it (callbackInProcess = 1, no goroutine will be started for the stream)", len(c.Pend), len(s.recvNotifyCh), c.Final[8], finalState)] = true
 		} else if !c.Deadlock || !c.DeadWg {
@@ -928,7 +935,7 @@ func c20Release(steps []vsStepRec) {
 type c20Budget struct{ bad, limit int }
 
 func (b *c20Budget) note(c c20Case) {
-	if len(c.Oracle) > 0 || len(c.Oracle10) > 0 || (!c.Finished && !c.ParkedOK) {
+	if len(c.Oracle) > 0 || len(c.Oracle10) > 0 || (!c.Finished && !c.ParkedOK && !c.Truncated) {
 		b.bad++
 	}
 }
@@ -1014,6 +1021,17 @@ func (o *c20Odo) chooser() vsChooser {
 	d := 0
 	o.widths = o.widths[:0]
 	return func(al []int, all int, last int, lastEv *vsEvent) int {
+		// a thread whose step just found the mutex / the wait group / the select busy finds it busy again until another
+		// thread has moved: polling it again is a no-op (in the model as in the code), not a different schedule
+		if lastEv != nil && lastEv.Kind == vsKBusy && len(al) > 1 {
+			rest := make([]int, 0, len(al))
+			for _, a := range al {
+				if a != last {
+					rest = append(rest, a)
+				}
+			}
+			al = rest
+		}
 		k := 0
 		if d < len(o.path) {
 			k = o.path[d]
